@@ -22,6 +22,10 @@
     the accessor functions below.
   * a `Range<i32>` is the list of values it iterates (`EG.irange`); a `RangeInclusive<i32>` is its two ends.
 
+  Every definition is an `abbrev` (reducible): `simp` does not rewrite inside `Decidable` instance arguments, so the
+  comparisons' instances keep mentioning `Size_width ..` etc.; they must unfold at reducible transparency for
+  `decide_eq_true_eq` / closing `rfl`s to apply.
+
   Import-free apart from EG.Basic / EG.Model (it is imported by generated code that the theorems use; the
   driver does not link it).
 -/
@@ -35,105 +39,105 @@ abbrev Point := EG.Pt
 abbrev Size := EG.Sz
 abbrev Rectangle := EG.Rect
 
-def Point_mk (x y : Int) : Point := ⟨x, y⟩
-def Point_x (p : Point) : Int := p.x
-def Point_y (p : Point) : Int := p.y
-def Point_set_x (p : Point) (v : Int) : Point := ⟨v, p.y⟩
-def Point_set_y (p : Point) (v : Int) : Point := ⟨p.x, v⟩
+abbrev Point_mk (x y : Int) : Point := ⟨x, y⟩
+abbrev Point_x (p : Point) : Int := p.x
+abbrev Point_y (p : Point) : Int := p.y
+abbrev Point_set_x (p : Point) (v : Int) : Point := ⟨v, p.y⟩
+abbrev Point_set_y (p : Point) (v : Int) : Point := ⟨p.x, v⟩
 
-def Size_mk (width height : Nat) : Size := ⟨width, height⟩
-def Size_width (s : Size) : Nat := s.w
-def Size_height (s : Size) : Nat := s.h
-def Size_set_width (s : Size) (v : Nat) : Size := ⟨v, s.h⟩
-def Size_set_height (s : Size) (v : Nat) : Size := ⟨s.w, v⟩
+abbrev Size_mk (width height : Nat) : Size := ⟨width, height⟩
+abbrev Size_width (s : Size) : Nat := s.w
+abbrev Size_height (s : Size) : Nat := s.h
+abbrev Size_set_width (s : Size) (v : Nat) : Size := ⟨v, s.h⟩
+abbrev Size_set_height (s : Size) (v : Nat) : Size := ⟨s.w, v⟩
 
-def Rectangle_mk (top_left : Point) (size : Size) : Rectangle := ⟨top_left, size⟩
-def Rectangle_top_left (r : Rectangle) : Point := r.tl
-def Rectangle_size (r : Rectangle) : Size := r.size
-def Rectangle_set_top_left (r : Rectangle) (v : Point) : Rectangle := ⟨v, r.size⟩
-def Rectangle_set_size (r : Rectangle) (v : Size) : Rectangle := ⟨r.tl, v⟩
+abbrev Rectangle_mk (top_left : Point) (size : Size) : Rectangle := ⟨top_left, size⟩
+abbrev Rectangle_top_left (r : Rectangle) : Point := r.tl
+abbrev Rectangle_size (r : Rectangle) : Size := r.size
+abbrev Rectangle_set_top_left (r : Rectangle) (v : Point) : Rectangle := ⟨v, r.size⟩
+abbrev Rectangle_set_size (r : Rectangle) (v : Size) : Rectangle := ⟨r.tl, v⟩
 
 /-! ### `i32` -/
 
-def i32_add (a b : Int) : Int := a + b
-def i32_sub (a b : Int) : Int := a - b
-def i32_mul (a b : Int) : Int := a * b
+abbrev i32_add (a b : Int) : Int := a + b
+abbrev i32_sub (a b : Int) : Int := a - b
+abbrev i32_mul (a b : Int) : Int := a * b
 /-- Rust `/` on `i32`: truncation toward zero. -/
-def i32_div (a b : Int) : Int := Int.tdiv a b
-def i32_neg (a : Int) : Int := -a
-def i32_min (a b : Int) : Int := min a b
-def i32_max (a b : Int) : Int := max a b
-def i32_abs (a : Int) : Int := (a.natAbs : Int)
-def i32_unsigned_abs (a : Int) : Nat := a.natAbs
-def i32_eq (a b : Int) : Bool := decide (a = b)
-def i32_ne (a b : Int) : Bool := decide (a ≠ b)
-def i32_lt (a b : Int) : Bool := decide (a < b)
-def i32_le (a b : Int) : Bool := decide (a ≤ b)
-def i32_gt (a b : Int) : Bool := decide (a > b)
-def i32_ge (a b : Int) : Bool := decide (a ≥ b)
+abbrev i32_div (a b : Int) : Int := Int.tdiv a b
+abbrev i32_neg (a : Int) : Int := -a
+abbrev i32_min (a b : Int) : Int := min a b
+abbrev i32_max (a b : Int) : Int := max a b
+abbrev i32_abs (a : Int) : Int := (a.natAbs : Int)
+abbrev i32_unsigned_abs (a : Int) : Nat := a.natAbs
+abbrev i32_eq (a b : Int) : Bool := decide (a = b)
+abbrev i32_ne (a b : Int) : Bool := decide (a ≠ b)
+abbrev i32_lt (a b : Int) : Bool := decide (a < b)
+abbrev i32_le (a b : Int) : Bool := decide (a ≤ b)
+abbrev i32_gt (a b : Int) : Bool := decide (a > b)
+abbrev i32_ge (a b : Int) : Bool := decide (a ≥ b)
 /-- `i32::saturating_add`. -/
-def i32_saturating_add (a b : Int) : Int :=
+abbrev i32_saturating_add (a b : Int) : Int :=
   if a + b > 2147483647 then 2147483647 else if a + b < -2147483648 then -2147483648 else a + b
 /-- `i32::saturating_sub`. -/
-def i32_saturating_sub (a b : Int) : Int :=
+abbrev i32_saturating_sub (a b : Int) : Int :=
   if a - b > 2147483647 then 2147483647 else if a - b < -2147483648 then -2147483648 else a - b
 /-- `x as u32` for `x : i32`: two's complement reinterpretation. -/
-def i32_as_u32 (a : Int) : Nat := if 0 ≤ a then a.toNat else (a + 4294967296).toNat
+abbrev i32_as_u32 (a : Int) : Nat := if 0 ≤ a then a.toNat else (a + 4294967296).toNat
 
 /-! ### `u32` -/
 
-def u32_add (a b : Nat) : Nat := a + b
+abbrev u32_add (a b : Nat) : Nat := a + b
 /-- `u32 - u32` (panics below 0 in a checked build; truncated here). -/
-def u32_sub (a b : Nat) : Nat := a - b
-def u32_mul (a b : Nat) : Nat := a * b
-def u32_div (a b : Nat) : Nat := a / b
-def u32_min (a b : Nat) : Nat := min a b
-def u32_max (a b : Nat) : Nat := max a b
-def u32_eq (a b : Nat) : Bool := decide (a = b)
-def u32_ne (a b : Nat) : Bool := decide (a ≠ b)
-def u32_lt (a b : Nat) : Bool := decide (a < b)
-def u32_le (a b : Nat) : Bool := decide (a ≤ b)
-def u32_gt (a b : Nat) : Bool := decide (a > b)
-def u32_ge (a b : Nat) : Bool := decide (a ≥ b)
+abbrev u32_sub (a b : Nat) : Nat := a - b
+abbrev u32_mul (a b : Nat) : Nat := a * b
+abbrev u32_div (a b : Nat) : Nat := a / b
+abbrev u32_min (a b : Nat) : Nat := min a b
+abbrev u32_max (a b : Nat) : Nat := max a b
+abbrev u32_eq (a b : Nat) : Bool := decide (a = b)
+abbrev u32_ne (a b : Nat) : Bool := decide (a ≠ b)
+abbrev u32_lt (a b : Nat) : Bool := decide (a < b)
+abbrev u32_le (a b : Nat) : Bool := decide (a ≤ b)
+abbrev u32_gt (a b : Nat) : Bool := decide (a > b)
+abbrev u32_ge (a b : Nat) : Bool := decide (a ≥ b)
 /-- `u32::saturating_add`. -/
-def u32_saturating_add (a b : Nat) : Nat := if a + b ≤ 4294967295 then a + b else 4294967295
+abbrev u32_saturating_add (a b : Nat) : Nat := if a + b ≤ 4294967295 then a + b else 4294967295
 /-- `u32::saturating_sub`. -/
-def u32_saturating_sub (a b : Nat) : Nat := a - b
+abbrev u32_saturating_sub (a b : Nat) : Nat := a - b
 /-- `az::SaturatingAs`: `x.saturating_as::<i32>()` for `x : u32`. -/
-def u32_saturating_as_i32 (a : Nat) : Int := if a ≤ 2147483647 then (a : Int) else 2147483647
+abbrev u32_saturating_as_i32 (a : Nat) : Int := if a ≤ 2147483647 then (a : Int) else 2147483647
 /-- `x as i32` for `x : u32`: wraps (values above `i32::MAX` become negative). -/
-def u32_as_i32 (a : Nat) : Int := if a ≤ 2147483647 then (a : Int) else (a : Int) - 4294967296
+abbrev u32_as_i32 (a : Nat) : Int := if a ≤ 2147483647 then (a : Int) else (a : Int) - 4294967296
 
 /-! ### `bool`, `Option`, ranges, `debug_assert!` -/
 
-def bool_and (a b : Bool) : Bool := a && b
-def bool_or (a b : Bool) : Bool := a || b
-def bool_not (a : Bool) : Bool := !a
-def bool_eq (a b : Bool) : Bool := a == b
-def bool_ne (a b : Bool) : Bool := a != b
+abbrev bool_and (a b : Bool) : Bool := a && b
+abbrev bool_or (a b : Bool) : Bool := a || b
+abbrev bool_not (a : Bool) : Bool := !a
+abbrev bool_eq (a b : Bool) : Bool := a == b
+abbrev bool_ne (a b : Bool) : Bool := a != b
 
 /-- `Option::is_some_and`. -/
-def option_is_some_and {α : Type} (o : Option α) (f : α → Bool) : Bool :=
+abbrev option_is_some_and {α : Type} (o : Option α) (f : α → Bool) : Bool :=
   match o with
   | some v => f v
   | none => false
 
 /-- `Range<i32>`: the values `a..b` iterates, in order. -/
 abbrev RangeI32 := List Int
-def range_i32_new (a b : Int) : RangeI32 := irange a b
+abbrev range_i32_new (a b : Int) : RangeI32 := irange a b
 
 /-- `RangeInclusive<i32>`: `a..=b`. -/
 structure RangeInclusiveI32 where
   start : Int
   end_ : Int
-def rangeinclusive_i32_new (a b : Int) : RangeInclusiveI32 := ⟨a, b⟩
-def rangeinclusive_i32_start (r : RangeInclusiveI32) : Int := r.start
-def rangeinclusive_i32_end (r : RangeInclusiveI32) : Int := r.end_
+abbrev rangeinclusive_i32_new (a b : Int) : RangeInclusiveI32 := ⟨a, b⟩
+abbrev rangeinclusive_i32_start (r : RangeInclusiveI32) : Int := r.start
+abbrev rangeinclusive_i32_end (r : RangeInclusiveI32) : Int := r.end_
 /-- `RangeInclusive::contains`: `start <= x && x <= end`. -/
-def rangeinclusive_i32_contains (r : RangeInclusiveI32) (x : Int) : Bool := decide (r.start ≤ x ∧ x ≤ r.end_)
+abbrev rangeinclusive_i32_contains (r : RangeInclusiveI32) (x : Int) : Bool := decide (r.start ≤ x ∧ x ≤ r.end_)
 
 /-- `debug_assert!(c, "..")`: no effect in a release build (a checked build panics when `c` is false; the
 equivalence theorems state the guard under which it is true). -/
-def debug_assert {α : Type} (_c : Bool) (k : α) : α := k
+abbrev debug_assert {α : Type} (_c : Bool) (k : α) : α := k
 
 end EG.RectSrcPrelude
